@@ -17,8 +17,16 @@ FILTER_ASSUMPTIONS = [
 ]
 
 
+@st.composite
+def crystal_family(draw, sgs=None, **kw):
+    """the C05 family plus a stratum with two species sharing one letter (and a third on a candidate partner letter)"""
+    if sgs is None and not kw and draw(st.integers(0, 3)) == 0:
+        return draw(gx.shared_letter_descs())
+    return draw(gx.crystal_descs(sgs=sgs, **kw))
+
+
 def case_strategy(sgs=None, **kw):
-    return st.fixed_dictionaries({"crystal": gx.crystal_descs(sgs=sgs, **kw), "pres": gx.presentations()})
+    return st.fixed_dictionaries({"crystal": crystal_family(sgs=sgs, **kw), "pres": gx.presentations()})
 
 
 class Ctx:
